@@ -394,6 +394,24 @@ fn rx_queue(port: u16) -> Option<usize> {
     None
 }
 
+/// Close with a reset: tens of thousands of connections in a row would
+/// otherwise sit in TIME_WAIT and use up the ephemeral ports.
+fn close_with_reset(conn: std::net::TcpStream) {
+    use std::os::fd::AsRawFd;
+    let l = libc::linger { l_onoff: 1, l_linger: 0 };
+    // SAFETY: setsockopt on our own socket with a properly sized struct.
+    unsafe {
+        libc::setsockopt(
+            conn.as_raw_fd(),
+            libc::SOL_SOCKET,
+            libc::SO_LINGER,
+            &l as *const libc::linger as *const libc::c_void,
+            std::mem::size_of::<libc::linger>() as libc::socklen_t,
+        );
+    }
+    drop(conn);
+}
+
 /// More bytes queued on the socket than the output stream has room for: the
 /// source has to take them in several calls, dropping nothing.
 fn tcp_bulk(rep: &mut Report) {
@@ -415,7 +433,7 @@ fn tcp_bulk(rep: &mut Report) {
             libc::close(p);
             p
         };
-        let (mut src, out) = TcpSource::<u32>::new("127.0.0.1", port).map_err(|e| format!("open: {e}"))?;
+        let (mut src, out) = TcpSource::<u32>::new("127.0.0.1", port).map_err(|e| format!("machinery: connecting to our own listener failed: {e}"))?;
         let (mut conn, _) = listener.accept().map_err(|e| format!("machinery: {e}"))?;
         // SAFETY: fstat on a descriptor number.
         let mut st: libc::stat = unsafe { std::mem::zeroed() };
@@ -450,6 +468,7 @@ fn tcp_bulk(rep: &mut Report) {
             let n = rb.len();
             rb.consume(n);
         }
+        close_with_reset(conn);
         Ok(())
     })();
     match res {
@@ -519,7 +538,7 @@ where
                     libc::close(p);
                     p
                 };
-                let (mut src, out) = TcpSource::<T>::new("127.0.0.1", port).map_err(|e| format!("open: {e}"))?;
+                let (mut src, out) = TcpSource::<T>::new("127.0.0.1", port).map_err(|e| format!("machinery: connecting to our own listener failed: {e}"))?;
                 let (mut conn, peer) = listener.accept().map_err(|e| format!("machinery: {e}"))?;
                 let _ = peer;
                 {
@@ -558,6 +577,7 @@ where
                     let n = rb.len();
                     rb.consume(n);
                 }
+                close_with_reset(conn);
                 Ok(())
             }
         })();
